@@ -42,7 +42,9 @@ package main
 //     ("0x10", "inf", "+5", "1_0", ".5", "5.", "1E6", …);
 //   - numerals whose exact value and whose float64-rounded value give different
 //     answers ("9007199254740992.0" vs the int 2^53+1; "9007199254740993" vs the
-//     float 2^53; underflowing/overflowing numerals);
+//     float 2^53; underflowing numerals against the float 0). A numeral that
+//     overflows float64 denotes a finite number and equals no float, in particular
+//     neither infinity;
 //   - container leaves of different primitive types that would be equal under
 //     the cross-type rules ([1] vs [1.0], [1] vs ["1"]); NaN leaves (reflexivity
 //     exemption).
@@ -51,7 +53,7 @@ package main
 // number is its magnitude band (0, -0, <1e6, <2^53, >=2^53, inexact = int64 not
 // representable as float64, frac, inf, nan), of a string its spelling (int,
 // frac, exp, goparse, nonnum; long-frac, long-exp, long-int beyond 100 characters).
-// Phases long and again: see c06_r5.go.
+// Phases long and again: see c06_r5.go. Phases inf and typed: see c06_r6.go.
 
 import (
 	"fmt"
@@ -413,9 +415,10 @@ func c06StrNum(s string, n c06V) c06Tri {
 	case math.IsNaN(n.f):
 		return c06False // no numeral denotes NaN
 	case math.IsInf(n.f, 0):
-		if perr != nil && pf == n.f {
-			return c06Unspec // overflowing numeral vs infinity
-		}
+		// no decimal numeral denotes an infinity: a numeral beyond the float64 range
+		// ("1e400", "2e308", a 310-digit integer, "1" + 1200 zeros + "e-600") is a
+		// well-formed numeral of a finite number that float64 cannot hold, and every
+		// other string is not equal to +-Inf either (phase inf, c06_r6.go)
 		return c06False
 	}
 	exactEq := r.Cmp(new(big.Rat).SetFloat64(n.f)) == 0
@@ -1382,8 +1385,10 @@ func init() {
 		ID: "C06",
 		Plan: func(tier string) fw.Plan {
 			nRand, nConc, nLong, nAgain := 400, 12, 30, 56
+			nInf, nTyped := 16, 32
 			if tier == "thorough" {
 				nRand, nConc, nLong, nAgain = 25000, 300, 1500, 3000
+				nInf, nTyped = 1200, 4000
 			}
 			return fw.Plan{
 				Level: "exploration",
@@ -1407,6 +1412,7 @@ func init() {
 					"the varying operand (v, vs[i], m.k, g(), (v), a parameter) sits in the list of `in` / the case list as a direct element, inside nested list literals or as the VALUE of nested map literals "+
 					"(%d fixed wrappers x 4 drivers all met over the first 56 case indices, plus random wrappers; also as the KEY of a map literal, with string values), next to 0..2 constant elements, or in the subject against an all-constant list; "+
 					"subjects per round are the wrapped value of this round, of the first round, of the previous round, near misses, constants. Per round: in = switch = OR(== of that round), != negates ==, == follows the statement's rule. "+
+					c06R6Rule()+
 					"Every evaluation is one vm.Execute whose boolean enters an algebraic law or a reference rule of the statement (non-trivial); distinct = distinct (source, bound values).", n*n, n, nViews,
 					c06LongEnumCases(), len(c06LongInts), len(c06LongLens), len(c06LongKinds), len(c06FixedWraps)),
 				Assumptions: []string{
@@ -1417,6 +1423,8 @@ func init() {
 					"equality is a relation on values, so an outcome may not depend on what other goroutines compare at the same time; the concurrent phase can only refute this when the scheduler interleaves the runs (best effort, no wall-clock verdict)",
 					"a numeral with a non-zero fraction, however long, denotes no integer; an int64 equals a long numeral exactly when math/big.Rat says the numeral's value is that integer (numerals up to 40000 characters, exponents up to +-20000; beyond: laws only); for float64 the existing reading stays (exact, or equal after strconv's correct rounding)",
 					"equality, membership and switch matching are relations on the values the operands have at the moment of the evaluation: evaluating the same expression again after its operands changed must answer for the new values (vm.Run of one parsed tree several times is a supported use of the API)",
+					"no decimal numeral denotes an infinity: a well-formed numeral whose value lies beyond the float64 range denotes a finite number no float64 holds, so it equals neither +Inf nor -Inf nor any other float (math/big.Rat decides 'beyond the range': the exact value rounds to no finite float64)",
+					"`in` is the existential closure of == over the elements of its right operand whatever Go type that list has ([]interface{}, []string, []int64, []float64, []bool; bound by the host, returned by a host function or strings.Split/Fields, made by make, written as a typed literal, a view of a longer slice, stored in a container): the elements are read back with tl[j] and x == tl[j] is observed in the same environment; typed lists only occur as the right operand of `in`, never as operands of == (typed against untyped containers: the statement is silent)",
 				},
 				Phases: []fw.Phase{
 					{Name: "enum", Cases: n + 1 + nViews, Chunk: 6, Exhaust: true, TimeoutS: 600},
@@ -1424,6 +1432,8 @@ func init() {
 					{Name: "conc", Cases: nConc, Chunk: 2, Jobs: 3, TimeoutS: 900},
 					{Name: "long", Cases: c06LongEnumCases() + nLong, Chunk: 6, Jobs: 4, TimeoutS: 900, MemMB: 3072},
 					{Name: "again", Cases: nAgain, Chunk: 16, Jobs: 4, TimeoutS: 900, MemMB: 3072},
+					{Name: "inf", Cases: c06InfEnumCases() + nInf, Chunk: 8, Jobs: 4, TimeoutS: 900, MemMB: 3072},
+					{Name: "typed", Cases: c06TypedEnumCases() + nTyped, Chunk: 8, Jobs: 4, TimeoutS: 900, MemMB: 3072},
 				},
 			}
 		},
@@ -1444,6 +1454,14 @@ func init() {
 			}
 			if c.Phase == "again" {
 				r.againCase(base)
+				return
+			}
+			if c.Phase == "inf" {
+				r.infCase(base)
+				return
+			}
+			if c.Phase == "typed" {
+				r.typedCase(base)
 				return
 			}
 			if c.Phase == "enum" {
